@@ -408,9 +408,10 @@ theorem mem_foldl_filter_addSet (l : List Nat) (p : Nat → Bool) (acc : List Na
         · rw [h1] at h2; exact absurd h2 hy
         · exact Or.inr ⟨h1, h2⟩
 
-/-- the states a configuration may hold: real states of the chart -/
+/-- the states a configuration may hold: the root (both engines keep the `<scxml>` element in `_configuration`) and real
+states of the chart -/
 def ConfigOk (c : Chart) (cfg : List Nat) : Prop :=
-  ∀ k ∈ cfg, k < c.states.size ∧ ((T.st c k).kind = .state ∨ (T.st c k).kind = .parallel ∨ (T.st c k).kind = .final)
+  ∀ k ∈ cfg, k < c.states.size ∧ (k = 0 ∨ (T.st c k).kind = .state ∨ (T.st c k).kind = .parallel ∨ (T.st c k).kind = .final)
 
 /-- **exit set**: in every configuration, the states Appendix D's `computeExitSet` makes a transition leave are the active
 ones among the static exit set the transpilers embed -/
@@ -443,7 +444,14 @@ theorem exitSet_eq (c : Chart) (h : Coh c) (S : W.SState) (ti : Nat) (p : PlainT
         · rintro ⟨h1, h2⟩
           obtain ⟨hlt, hk⟩ := hcfg s h1
           refine ⟨h1, hlt, by rw [← desc_eq]; exact h2, ?_⟩
-          rcases hk with hk | hk | hk
+          rcases hk with hk | hk | hk | hk
+          · -- the root is nobody's descendant
+            exfalso
+            subst hk
+            rw [desc_eq] at h2
+            unfold Model.Tables.isDescendant Model.Tables.ancs at h2
+            rw [anc_root_nil c h] at h2
+            cases h2
           · exact Or.inl (Or.inl hk)
           · exact Or.inl (Or.inr hk)
           · exact Or.inr hk
